@@ -185,7 +185,8 @@ func history(r drv.Rand, idx int) *h.World {
 			e.Actor, e.ActorType = a, at
 		}
 		e.Requested = drv.Pick(r, []string{"TAbsent", "TAccess", "TRefresh", "TId", "TJwt", "TUnknown", "TAccess", "TRefresh", "TId", "TAbsent", "TAccess", "TRefresh", "TId"})
-		e.Scopes = drv.Pick(r, [][]string{nil, {"openid"}, {"openid", "profile"}, {"openid", "drop"}, {"profile"}, {"openid", "veto"}, {"drop"}, {"openid", "email", "x"}, {"openid"}, {"openid", "profile"}, {"openid", "profile", "drop"}, {"email"}})
+		e.Scopes = drv.Pick(r, [][]string{nil, {"openid"}, {"openid", "profile"}, {"openid", "drop"}, {"profile"}, {"openid", "veto"}, {"drop"}, {"openid", "email", "x"}, {"openid"}, {"openid", "profile"}, {"openid", "profile", "drop"}, {"email"},
+			{"openid", "late"}, {"late", "profile", "drop"}, {"openid", "veto", "late"}})
 		e.Audience = drv.Pick(r, [][]string{nil, {e.Cred.ID}, {e.Cred.ID}, {"web", "web2"}})
 		w.Tags["subj="+sk] = true
 		w.Tags["declared="+declared] = true
@@ -216,7 +217,7 @@ func main() {
 		wr.Add(emit.Case{Input: w.Input(), Observed: w.Observed(), Tags: w.TagList(), Human: w.Log})
 	}
 	err := wr.Close(emit.Meta{Property: "C15", Tier: cfg.Tier, Seed: cfg.Seed,
-		Rule: "one case = one history on a fresh provider: 2-3 code flows (an opaque-token client, a JWT client, often a client with negative lifetimes; subjects incl. one with a colon), optionally a revocation or logout, then 3-6 token-exchange requests from the matrix subject kind {opaque AT, JWT AT, RT, ID token, foreign (other key / issuer / tampered), expired, revoked, garbage, colon subject} x declared type (the natural one, or any of access/refresh/id/jwt/unknown/absent) x actor {none or any kind} x requested type {absent, access, refresh, id, jwt, unknown} x credentials x scopes (incl. the storage's veto / drop) x audience, each returned token presented at userinfo / introspection half of the time. Non-trivial = at least one exchange of the history succeeded (path class != 0); distinct = distinct (input, path class).",
+		Rule: "one case = one history on a fresh provider: 2-3 code flows (an opaque-token client, a JWT client, often a client with negative lifetimes; subjects incl. one with a colon), optionally a revocation or logout, then 3-6 token-exchange requests from the matrix subject kind {opaque AT, JWT AT, RT, ID token, foreign (other key / issuer / tampered), expired, revoked, garbage, colon subject} x declared type (the natural one, or any of access/refresh/id/jwt/unknown/absent) x actor {none or any kind} x requested type {absent, access, refresh, id, jwt, unknown} x credentials x scopes (incl. the storage's veto at its first hook, its late veto at the second hook - CreateTokenExchangeRequest, plain or OAuth error, a world dimension - and drop) x audience, each returned token presented at userinfo / introspection half of the time. Non-trivial = at least one exchange of the history succeeded (path class != 0); distinct = distinct (input, path class).",
 	})
 	if err != nil {
 		fmt.Fprintln(os.Stderr, err)
